@@ -183,7 +183,7 @@ func checkC06(c *Ctx) {
 	edges = append(edges, nested...)
 	for _, r := range reentries {
 		c.R.Violate("R-lock-order", sprintf("%s calls %s while holding %s", fname(r.fn), fname(r.callee), r.key), c.Pos(r.call.Pos()),
-			sprintf("%s calls %s while it holds %s, and %s (or a function it calls) locks the same mutex of the same object again: Go mutexes are not re-entrant, the request deadlocks and takes every later request that needs the lock with it", fname(r.fn), fname(r.callee), r.key, fname(r.callee)))
+			sprintf("%s calls %s while it holds %s, and %s (or a function it calls) locks the same mutex of the same object again: Go mutexes are not re-entrant (nor may a read lock be taken twice while writers exist), the request deadlocks and takes every later request that needs the lock with it", fname(r.fn), fname(r.callee), r.key, fname(r.callee)))
 	}
 	cyc := lockCycles(edges)
 	seenE := map[string]bool{}
